@@ -214,15 +214,19 @@ func Run(tier, replay string) {
 	ai.Cleanup()
 
 	// (G) one test per explored transition of the model as required.
-	build := map[string]string{"MaxSrc": "0", "MaxCalls": "5"}
+	build := map[string]string{"MaxSrc": "0", "MaxCalls": "4"}
 	parse := map[string]string{"MaxSrc": "2", "MaxCalls": "3"}
+	// one function, everything unnamed: deeper histories over the local numbering
+	locals := map[string]string{"MaxSrc": "0", "MaxCalls": "5", "MaxPerGroup": "0", "NewNames": `{""}`, "SetNames": `{"y"}`}
 	if tier == "thorough" {
-		build["MaxCalls"] = "6"
+		build["MaxCalls"] = "5"
 		parse["MaxCalls"] = "4"
 		parse["TermKinds"] = `{"ret", "invoke", "catchswitch"}`
+		locals["MaxCalls"] = "6"
 	}
 	emitRun(rep, "build", build, st, 25*time.Minute)
 	emitRun(rep, "parse", parse, st, 25*time.Minute)
+	emitRun(rep, "locals", locals, st, 25*time.Minute)
 	// terminators and renames beyond the first alphabet, on functions only
 	wide := map[string]string{"MaxSrc": "0", "MaxCalls": "5", "MaxPerGroup": "0", "MaxParams": "0", "MaxBlocks": "1",
 		"NewNames": `{""}`, "SetNames": `{"y"}`, "InstRes": `{"value"}`,
@@ -235,11 +239,11 @@ func Run(tier, replay string) {
 	emitRun(rep, "terminators", wide, st, 25*time.Minute)
 	// pure queries remembered (TrackQueries): histories "query, edit, print" -- Type() and Succs()
 	// fill the caches Typ / Successors, Retarget then changes what Succs() cached
-	queries := map[string]string{"MaxSrc": "0", "MaxCalls": "6", "MaxPerGroup": "0", "MaxParams": "0", "MaxBlocks": "2", "MaxInsts": "1",
+	queries := map[string]string{"MaxSrc": "0", "MaxCalls": "5", "MaxPerGroup": "0", "MaxParams": "0", "MaxBlocks": "2", "MaxInsts": "1",
 		"NewNames": `{""}`, "SetNames": `{"y"}`, "InstRes": `{"value"}`, "TermKinds": `{"br", "invoke"}`, "TrackQueries": "TRUE",
 		"Observers": `{"PrintModule", "PrintBlock", "QueryType", "QueryIdent", "QueryOperands", "QuerySuccs"}`}
 	if tier == "thorough" {
-		queries["MaxCalls"] = "7"
+		queries["MaxCalls"] = "6"
 		queries["TermKinds"] = `{"br", "invoke", "callbr", "catchswitch"}`
 	}
 	emitRun(rep, "queries", queries, st, 25*time.Minute)
@@ -266,7 +270,7 @@ func Run(tier, replay string) {
 		rep.Note("%d histories print, without any observer, something else than the numbering IRState requires: judged by C08, not a C14 verdict", st.divergences)
 	}
 	rep.Exhaustive = true
-	rep.Explanation = "every transition of the four IRState configurations of this tier was emitted and replayed (no sampling)"
+	rep.Explanation = "every transition of the five IRState configurations of this tier was emitted and replayed (no sampling)"
 	rep.Assumptions = []string{
 		"the replay (harness/props/irhist) maps each IRState action to the public API call it stands for; instructions are add/call/store/fence, terminators ret/br/invoke/callbr/catchswitch with placeholder operands",
 		"Type(), Ident(), Operands(), Succs() are called on every object of the module at the observer's position",
